@@ -44,7 +44,7 @@ DInit == /\ hv \in Vals /\ target \in Vals /\ val = hv /\ jit \in Jitters
 
 Drivable == shape \in {"ramp", "speed", "none"}
 (* the status a target change has to leave behind *)
-AfterTarget(T) == IF T # hv THEN {"busy"} ELSE {status}
+AfterTarget(T) == IF T # hv THEN {"busy"} ELSE {status, "idle"}
 
 SetTarget(T) == /\ shape # "readable"
                 /\ target' = T /\ last' = [op |-> "target"]
